@@ -136,7 +136,7 @@ def run(ctx):
         ctx.obligation("T-stencil:translate correlators.py", False, str(e))
         gen_ok = False
         names = {}
-    common.tie_pycore(ctx, ["Tie_plateau.v"])        # the averaging branch of Corr.plateau, regenerated
+    common.tie_pycore(ctx, ["Tie_plateau.v", "Tie_meffroot.v"])        # the averaging branch of Corr.plateau and the loop of the root variants of m_eff, regenerated
     broken_variants = set()
     if gen_ok:
         files = sorted(f for f in os.listdir(os.path.join(common.PROPS, "C15")) if f.endswith(".v"))
